@@ -269,6 +269,33 @@ def check(P: Project, R: Report) -> None:
                      sample=f"R3 {a.name} ≺ {b.name}: " + ("no shadowing" if why is None else why))
     R.ob("R3", "the fallback validator has a Literal case that can reject", literal_rejects, f"{base_rel}:{dv.lineno}", f"origin cases handled: {sorted(origin_cases)} — without a Literal case discriminator tags are not checked")
 
+    # ------------------------------------------------------------------ R8: the fallback's dump keeps free-form containers intact
+    R.rule("R8", "re-serialisation: Pydantic applies exclude_none to declared fields only, so the fallback's nested serialiser must map the elements of free-form lists and dicts one to one — no filter in its comprehensions, no conditional skip in its loops, dict keys unchanged")
+    dumpf = fb_methods.get("model_dump")
+    sv = fb_methods.get("_serialize_value")
+    R.need(dumpf is not None, "anchor: fallback model_dump not found")
+    nested_fns = [sv] if sv is not None else [dumpf]
+    n_maps = 0
+    for fnode in nested_fns:
+        for n in walk_local(fnode):
+            if isinstance(n, (ast.ListComp, ast.DictComp, ast.SetComp, ast.GeneratorExp)):
+                n_maps += 1
+                filt = [ast.unparse(i)[:50] for g in n.generators for i in g.ifs]
+                key_ok = True
+                if isinstance(n, ast.DictComp):
+                    tgt = n.generators[0].target
+                    k0 = tgt.elts[0] if isinstance(tgt, ast.Tuple) and tgt.elts else None
+                    key_ok = k0 is not None and ast.unparse(n.key) == ast.unparse(k0)
+                R.ob("R8", f"fallback nested serialiser: `{ast.unparse(n)[:40]}…` maps every element", not filt and key_ok, f"{base_rel}:{n.lineno}",
+                     (f"elements are filtered by `{filt[0]}`" if filt else "dict keys are rewritten") + ": an explicit null (or other member) inside a free-form Dict[str, Any]/List[Any] value — tool arguments, a JSON schema default, _meta, a result payload — is dropped by the fallback and kept by Pydantic, so the two backends re-serialise the same message differently",
+                     sample=f"R8 {fnode.name}: {type(n).__name__} without filter")
+            if sv is not None and isinstance(n, (ast.For, ast.While)):
+                n_maps += 1
+                cond = [x for x in walk_local(n) if isinstance(x, (ast.Continue, ast.Break)) or (isinstance(x, ast.If) and x is not n)]
+                R.ob("R8", f"fallback nested serialiser: loop at line {n.lineno} handles every element", not cond, f"{base_rel}:{n.lineno}", "a conditional inside the element loop can skip members of a free-form container")
+    if sv is not None:
+        R.ob("R8", "the nested serialiser's container branches were examined", n_maps >= 2, f"{base_rel}:{sv.lineno}", f"{n_maps} element maps found (list and dict branches expected)")
+
     # ------------------------------------------------------------------ R5
     union_if = None
     for n in walk_local(dv):
